@@ -373,7 +373,7 @@ func TestC04(t *testing.T) {
 		"Real clusters of 2-16 nodes in virtual time with NO faults: every packet delayed by a PRNG value strictly below ProbeTimeout/2 (zero / uniform / bimodal-near-bound profiles, arbitrary reordering), stream writes likewise; joins in PRNG order (staggered or all at once), interleaved UpdateNode, one graceful Leave (the leaver keeps answering until every peer recorded it), user broadcasts, best-effort and reliable sends, extra Joins. Absence monitors: (wire) any suspect message, dead message with From != Node, indirect-ping request, nack or TCP fallback ping; (push/pull) any entry in state suspect/dead; (dump, every 250 ms) any suspect/dead record or suspicion timer, left without Leave; (log) failure/refutation lines; NotifyLeave for a non-leaver; GetHealthScore != 0. The C07 event monitor and C02 invariant run on every node. Cell = (n bucket, latency profile, config, operation).")
 	defer run.Finish()
 	run.Assume("latency bound is strict (< ProbeTimeout/2 - 1 ms) so no ack/timeout tie can occur", "stream writes use a quarter of the packet latency per write (a push/pull is several writes)")
-	n := run.Pick(36, 1600)
+	n := run.Pick(96, 9600)
 	for i := 0; i < n; i++ {
 		if !run.Mine(i) {
 			continue
